@@ -45,7 +45,7 @@ ASSUMPTIONS = [
 TOL = 1e-5          # coefficients (relative to max|coefficient|) and poles (relative to |lambda|)
 TOL_SELF = 1e-9     # Fn/Xi/Phi versus the Lambds value of the same cell
 EDGE = 1e-7         # |Re lambda| <= EDGE |lambda| : reported or blanked, both admissible
-DTS = (1e-3, 0.05, 1.0)
+DTS = (1e-3, 1.0 / 51.2, 1.0)
 SIGNS = (-1, 1)
 NF_KINDS = ("min", "min+7", "257")
 EXTRA = (0, 2)
@@ -539,7 +539,7 @@ def explore(ctx):
     nrefs = [1, 2, 5]
     inner_fit = list(itertools.product(SIGNS, NF_KINDS, DTS, EXTRA, FAMS))
     inner_true = list(itertools.product(SIGNS, ("min",), DTS, (0,), FAMS))
-    inner_class = list(itertools.product((-1,), NF_KINDS if ctx.thorough else ("min+7",), (0.05, 1.0), EXTRA, FAMS))
+    inner_class = list(itertools.product((-1,), NF_KINDS if ctx.thorough else ("min+7",), (1.0 / 51.2, 1.0), EXTRA, FAMS))
     ns_class = ns if ctx.thorough else [1, 2, 3]
     nch_class = [2, 3, 4] if ctx.thorough else [2, 3]
     ctx.bounds = {
@@ -549,7 +549,7 @@ def explore(ctx):
                                                                  "dt": list(DTS), "coefficient_family": list(FAMS)},
         "class (pLSCF algorithm through SingleSetup, SD_est replaced by the exact spectrum)": {
             "n": ns_class, "Nch = Nref": nch_class, "sign": [-1], "Nf": sorted({k for _, k, _, _, _ in inner_class}),
-            "dt": [0.05, 1.0], "ordmax-n": list(EXTRA), "coefficient_family": list(FAMS)},
+            "dt": [1.0 / 51.2, 1.0], "ordmax-n": list(EXTRA), "coefficient_family": list(FAMS)},
         "tolerance": {"coefficients_rel": TOL, "poles_rel": TOL, "self_consistency": TOL_SELF, "edge_not_judged": EDGE},
         "guards": {"cond(alpha_0), cond(alpha_n) <=": 50, "root separation >=": 1e-3, "|root| >=": 1e-3,
                    "relative pole separation >=": 1e-3},
